@@ -295,8 +295,10 @@ impl Family for C04Family {
         // (e) the credential shown for consent is the one that signs
         if ok && is_authentication(kind) {
             let shown = asked.as_ref().and_then(|a| a.0.clone());
-            if shown != returned_id(o) {
-                j.fail("shown-credential-differs", format!("the user was shown credential {:?} but {:?} signed", shown.map(|s| crate::model::hex(&s)), returned_id(o).map(|s| crate::model::hex(&s))));
+            let signer = signer_of(kind, o, o.before.iter().chain(o.after.iter())).map(|s| s.id.clone());
+            // (the id the response reports is C03's clause; here: whose key produced the signature)
+            if shown.is_none() || signer.is_none() || shown != signer {
+                j.fail("shown-credential-differs", format!("the user was shown credential {:?} but the signature verifies under the key of {:?}", shown.map(|s| crate::model::hex(&s)), signer.map(|s| crate::model::hex(&s))));
             }
         }
         // (d) twin world without the matching credential: same outcome while consent is missing
